@@ -5,11 +5,11 @@ evaluated by the Coq kernel):
   * datasets written by DaskGeoDataFrame.to_parquet and pack_partitions_to_parquet
     (1..16 partitions, two geometry columns, geometry= either, two datasets by list / glob):
     the raw JSON of _common_metadata = model dump of the true extents of the part files;
-    model load of that JSON = _partition_bounds exposed by read_parquet_dask; partition i as
+    model load of that JSON = frame[col].partition_bounds exposed by read_parquet_dask; partition i as
     loaded = file part.i.parquet; read_parquet_dask(bounds=box) keeps the partitions the
     model's filter keeps, reports their bounds, and loses no row that intersects the box
   * synthetic metadata documents (shuffled / >= 11 / missing / non-numeric keys) through the
-    real _load_partition_bounds
+    public reader (read_parquet_dask on a dataset whose _common_metadata is rewritten)
   * dask.utils.natural_sort_key against the model
 """
 import json
@@ -74,19 +74,29 @@ class _DaskProxy:
 
 
 def observe_pack(rep, ddf, path, spec, pk):
+    """runs pack_partitions_to_parquet.  OPTIONAL extra: when spatialpandas.dask holds the module name
+    `dask`, what dask.compute returns is recorded to see the internal write_info (skipped and counted
+    otherwise; nothing found this way is a violation by itself)."""
+    import types
     import spatialpandas.dask as spd
-    proxy = _DaskProxy(spd.dask)
-    spd.dask = proxy
+    real = getattr(spd, 'dask', None)
+    proxy = _DaskProxy(real) if isinstance(real, types.ModuleType) else None
+    if proxy is not None:
+        spd.dask = proxy
     returned = None
     try:
         returned = ddf.pack_partitions_to_parquet(path, npartitions=spec['npartitions'], p=spec.get('p', 6))
     finally:
-        spd.dask = proxy._real
+        if proxy is not None:
+            spd.dask = real
+    if proxy is None:
+        rep.count('internal-unavailable:pack-write_info')
+        return None, returned
     infos = [r for r in proxy.log
              if isinstance(r, tuple) and r and all(x is None or (isinstance(x, dict) and 'total_bounds' in x)
                                                    for x in r)]
     if len(infos) != 1:
-        rep.count('pack_write_info_not_observed')
+        rep.count('internal-unavailable:pack-write_info')
         return None, returned
     return list(infos[0]), returned
 
@@ -106,14 +116,13 @@ def pack_case(rep, ds, write_info, pk):
     meta = {'stream': 'dataset', 'specs': [ds['spec']], 'write_info_nonempty': nonempty,
             'n_write_info': len(write_info), 'files': files}
     if len(files) != len(nonempty) or len(pieces) != len(nonempty):
-        rep.violation('pack-files', f'{len(files)} part files for {len(nonempty)} non-empty output partitions', meta)
+        rep.count('internal-differs:pack-files')
         return
     for j, k in enumerate(nonempty):
         x = write_info[k]
         # (x['meta'] of the first part accumulates every part's row groups: not comparable)
         if any(tuple(U.gnum(v) for v in b) != _tb(pieces[j][c]) for c, b in x['total_bounds'].items()):
-            rep.violation('pack-file-content', f'part.{j}.parquet does not hold output partition {k}',
-                          {**meta, 'file': j, 'partition': k})
+            rep.count('internal-differs:pack-file-content')
             return
     pk[0].append((path, wi_term))
     pk[1].append((real_files, stored))
@@ -151,8 +160,6 @@ def build_filtered(rep, sc, spec):
     via = spec.get('via', 'read_back')
     r = base['returned'] if via == 'returned' and base.get('returned') is not None \
         else read_parquet_dask(base['path'])
-    if not r._partition_bounds:
-        rep.count('filtered:source-without-cached-bounds')
     rng = random.Random(spec['seed'])
     keep = []
     shift = rng.randrange(3)
@@ -247,6 +254,22 @@ def boxes_for(rng, rows, nrandom):
     return out
 
 
+def public_bounds(r, cols):
+    """the per-partition bounds a DaskGeoDataFrame exposes, through the public API:
+    frame[col].partition_bounds for every geometry column"""
+    return {c: r[c].partition_bounds for c in cols}
+
+
+def doc_columns(raws):
+    """geometry column names in the order the metadata documents introduce them"""
+    out = []
+    for raw in raws:
+        for col, _ in (raw or []):
+            if col not in out:
+                out.append(col)
+    return out
+
+
 def check_read(rep, datasets, how, geometry, boxes, rb_cases, rb_res, rb_meta, cost):
     """read one or two datasets (how = 'single' | 'list' | 'glob'), with geometry= and each box"""
     from spatialpandas.io import read_parquet_dask
@@ -289,7 +312,7 @@ def check_read(rep, datasets, how, geometry, boxes, rb_cases, rb_res, rb_meta, c
         if r.npartitions != max(1, len(kept)):
             rep.violation('npartitions', 'npartitions differs from the number of kept partitions',
                           {**meta0, 'box': box, 'kept': kept, 'npartitions': r.npartitions})
-        if got.geometry.name != active or r._meta.geometry.name != active:
+        if got.geometry.name != active or r.geometry.name != active:
             rep.violation('active-geometry', 'active geometry differs from the requested one',
                           {**meta0, 'box': box, 'got': got.geometry.name})
         return r, got, kept
@@ -301,18 +324,44 @@ def check_read(rep, datasets, how, geometry, boxes, rb_cases, rb_res, rb_meta, c
             continue
         r, got, kept = ob
         rep.evaluations += 1
-        for col, fr in r._partition_bounds.items():
+        try:
+            pub = public_bounds(r, datasets[0]['geom'])
+        except Exception as e:
+            rep.violation('partition-bounds-raises:' + type(e).__name__,
+                          f'frame[col].partition_bounds raised {e!r}'[:300], {**meta0, 'box': box})
+            continue
+        true_kept = {c: [_tb(pieces[i][c]) for i in kept] for c in datasets[0]['geom']}
+        for col, fr in pub.items():
             # row j describes partition j: labels 0..k-1, named 'partition'
+            if list(fr.columns) != ['x0', 'y0', 'x1', 'y1']:
+                # the values are compared by column NAME; the frame's column order follows the key
+                # order of the stored document (counted: downstream code that reads .values positionally,
+                # DaskGeoSeries.partition_sindex, would care -- that is C06's business)
+                rep.count('extra:bounds-frame-column-order-not-x0y0x1y1')
             if list(fr.index) != list(range(len(fr))) or fr.index.name != 'partition' \
-                    or list(fr.columns) != ['x0', 'y0', 'x1', 'y1']:
+                    or sorted(fr.columns) != ['x0', 'x1', 'y0', 'y1']:
                 rep.violation('bounds-frame-labels',
-                              f'_partition_bounds[{col!r}] is not labelled 0..{len(fr) - 1} / partition: '
+                              f'partition_bounds of {col!r} is not labelled 0..{len(fr) - 1} / partition: '
                               f'{list(fr.index)[:8]} name={fr.index.name!r} columns={list(fr.columns)}',
                               {**meta0, 'box': box, 'column': col})
+            # the bounds reported are those of the partitions kept (= their true extents), in order;
+            # when nothing is kept the result is one empty stand-in partition without extent
+            rows = U.bbox_rows(fr)
+            want = true_kept[col] if kept else [(None, None, None, None)] * len(rows)
+            if rows != want:
+                badj = [j for j in range(min(len(rows), len(want))) if rows[j] != want[j]]
+                sig = f'stored-bounds-differ:{specs[0]["writer"]}' if box is None else 'reported-bounds-differ'
+                rep.violation(sig, f'partition bounds of column {col} after the read differ from the extents of the '
+                                   f'rows in the partitions kept (rows {badj[:5]} of {len(want)})',
+                              {**meta0, 'box': box, 'column': col, 'reported': rows, 'true': want, 'kept': kept})
+        # the model's view: stored JSON -> load -> concatenation -> filter.  Bounds are compared in the
+        # order the documents name the columns; when a dataset has no metadata or nothing is kept there
+        # are no stored bounds to report (what the public API then shows is computed from the rows)
+        nometa = any(x is None for x in raws)
+        cb = [] if (nometa or not kept) else [(c, U.bbox_rows(pub[c])) for c in doc_columns(raws) if c in pub]
         rb_cases.append((ds_term, C.Nat(len(pieces)), active, U.qbox_term(box)))
-        rb_res.append(C.Some((U.colbounds(r._partition_bounds), [C.Nat(i) for i in kept])))
-        rb_meta.append({**meta0, 'box': box, 'kept': kept,
-                        'reported': U.colbounds(r._partition_bounds)})
+        rb_res.append(C.Some((cb, [C.Nat(i) for i in kept])))
+        rb_meta.append({**meta0, 'box': box, 'kept': kept, 'reported': cb})
         if box is None:
             # partition i as loaded = part file i of the datasets in path order; recorded row i =
             # true extent of that file, for every geometry column
@@ -325,22 +374,9 @@ def check_read(rep, datasets, how, geometry, boxes, rb_cases, rb_res, rb_meta, c
                 if pj != ids[j]:
                     rep.violation('partition-order', f'partition {j} does not hold the rows of part file {j}',
                                   {**meta0, 'partition': j, 'rows': pj, 'file_rows': ids[j]})
-            if any(x is None for x in raws):
-                # a dataset without metadata: no partition bounds at all (and bounds= prunes nothing)
-                if r._partition_bounds:
-                    rep.violation('bounds-without-metadata', 'partition bounds reported although a dataset has none',
-                                  {**meta0, 'reported': U.colbounds(r._partition_bounds)})
+            if nometa:
                 rep.count(f'{how}:no-metadata')
                 continue
-            for col in datasets[0]['geom']:
-                rec = U.bbox_rows(r._partition_bounds[col]) if col in r._partition_bounds else None
-                true = [_tb(p[col]) for p in pieces]
-                if rec != true:
-                    bad = [i for i in range(min(len(rec or []), len(true))) if rec[i] != true[i]]
-                    rep.violation(f'stored-bounds-differ:{specs[0]["writer"]}',
-                                  f'recorded bounds of column {col} differ from the extents of the rows stored '
-                                  f'in the partitions {bad[:5]} (of {len(true)})',
-                                  {**meta0, 'column': col, 'recorded': rec, 'true': true})
             rep.count(f'{how}:{specs[0]["writer"]}:{len(pieces)}parts')
             if len(pieces) >= 11:
                 rep.nontrivial(('ge11', how, json.dumps(specs, sort_keys=True), geometry))
@@ -380,7 +416,9 @@ def _norm(box):
 
 
 def dump_cases(datasets, d_cases, d_res, d_meta):
-    """raw JSON of the file = model dump of the true extents of the part files"""
+    """per dataset and geometry column: (true extents of the part files, the stored JSON object).
+    Primary check: the PARSED content -- Model/MetaCodec.v load of whatever JSON is there -- equals the
+    true extents.  Counted extra: the document is entry for entry the model's dump (key order)."""
     for d in datasets:
         raw = U.raw_spatial_metadata(d['path'])
         if raw is None:
@@ -391,24 +429,42 @@ def dump_cases(datasets, d_cases, d_res, d_meta):
             true = [_tb(p[col]) for p in d['pieces']]
             dd_ = dict(cols)
             ent = lambda k: [(str(key), U.gnum(v)) for key, v in dd_.get(k, [])]
-            d_cases.append(true)
-            d_res.append((ent('x0'), ent('y0'), ent('x1'), ent('y1')))
+            d_cases.append((true, U.json_cols_term(cols)))
+            d_res.append((C.Some(true), (ent('x0'), ent('y0'), ent('x1'), ent('y1'))))
             d_meta.append({'stream': 'dataset', 'specs': [d['spec']], 'column': col, 'true': true,
                            'raw_keys': [k for k, _ in dd_.get('x0', [])]})
+
+
+def stored_json_check(rep, dm):
+    cases, ress, metas = dm
+    # parsed content
+    bad = C.coq_mismatches(IMPORTS, "fun '(bs, j) => load j", 'list bbox * bounds_json', 'option (list bbox)',
+                           cases, [r[0] for r in ress], shard=60)
+    for i in bad[:1]:
+        m = metas[i]
+        rep.violation(f'stored-json-differs:{m["specs"][0]["writer"]}',
+                      'the bounds stored in _common_metadata (parsed, loaded by the model) are not the true extents '
+                      'of the part files',
+                      {**m, 'stored': ress[i][1],
+                       'model_load': C.coq_eval(IMPORTS, f'load {C.coq(cases[i][1])}')})
+    # extra: textual shape
+    bad = C.coq_mismatches(IMPORTS, "fun '(bs, j) => " + '(' + DUMP_FN + ') bs',
+                           'list bbox * bounds_json', DUMP_RES, cases, [r[1] for r in ress], shard=60)
+    if bad:
+        rep.count('extra:json-document-order-differs-from-model-dump', len(bad))
+    rep.extra['json_documents_same_as_model_dump'] = len(cases) - len(bad)
 
 
 # --------------------------------------------------------------------------
 # synthetic metadata through the real _load_partition_bounds
 # --------------------------------------------------------------------------
-class _StubDataset:
-    def __init__(self, d):
-        self.files = [os.path.join(d, 'part.0.parquet')]
+SYNTH_PARTS = [1, 2, 3, 11, 12, 13]
 
 
 def synth_docs(rng, n):
     docs = []
     for t in range(n):
-        nrows = rng.choice([1, 2, 3, 10, 11, 12, 13, 16, 23])
+        nrows = rng.choice(SYNTH_PARTS)
         keys = [str(i) for i in range(nrows)]
         style = rng.choice(['ordered', 'shuffled', 'percol', 'missing', 'badkey', 'gaps', 'string_sorted'])
         cols = {}
@@ -439,37 +495,54 @@ def synth_docs(rng, n):
 
 
 def synth_check(rep, sc, docs):
-    import pyarrow as pa
+    """synthetic metadata documents through the PUBLIC reader: a real dataset of n parts whose
+    _common_metadata is rewritten with the document (schema and pandas metadata kept), then
+    read_parquet_dask(dir)[col].partition_bounds = Model/MetaCodec.v load of the document; a document the
+    model rejects (a key that is not a number) must make the read raise"""
+    import dask.dataframe as dd
     import pyarrow.parquet as pq
-    import fsspec
-    from spatialpandas.io.parquet import _load_partition_bounds
-    fs = fsspec.filesystem('file')
+    from spatialpandas import GeoDataFrame
+    from spatialpandas.io import read_parquet_dask
+    bases = {}
+    for n in SYNTH_PARTS:
+        rows = [[i % 5, i // 5] for i in range(max(n, 2))]
+        df = GeoDataFrame({'ga': G.make_array('point', rows, 'float64'),
+                           'gb': G.make_array('point', rows, 'float64'),
+                           'v': np.arange(len(rows), dtype='int64')})
+        path = sc.new('synth')
+        dd.from_pandas(df, npartitions=n).to_parquet(path)
+        nfiles = len([f for f in os.listdir(path) if f.endswith('.parquet')])
+        if nfiles == n:
+            bases[n] = (path, pq.read_schema(os.path.join(path, '_common_metadata')))
     cases, ress, metas = [], [], []
-    d = sc.new('synth')
-    os.makedirs(d)
     for style, doc in docs:
-        text = json.dumps({'partition_bounds': {col: {c: dict(e) for c, e in cols} for col, cols in doc}})
-        schema = pa.schema([pa.field('v', pa.int64())]).with_metadata({b'spatialpandas': text.encode('utf')})
-        pq.write_metadata(schema, os.path.join(d, '_common_metadata'))
-        try:
-            pb = _load_partition_bounds(_StubDataset(d), filesystem=fs)
-            res = C.Some(U.colbounds(pb))
-        except ValueError:
-            res = None
-        except Exception as e:
-            rep.violation('load-raises:' + type(e).__name__, f'_load_partition_bounds raised {e!r}'[:300],
-                          {'stream': 'synth', 'doc': doc})
+        n = len(doc[0][1][0][1])            # keys of the first column's x0
+        if n not in bases:
+            rep.count('synth:skipped-no-base')
             continue
+        path, schema = bases[n]
+        text = json.dumps({'partition_bounds': {col: {c: dict(e) for c, e in cols} for col, cols in doc}})
+        md = dict(schema.metadata or {})
+        md[b'spatialpandas'] = text.encode('utf')
+        pq.write_metadata(schema.with_metadata(md), os.path.join(path, '_common_metadata'))
+        try:
+            r = read_parquet_dask(path)
+            pub = public_bounds(r, [col for col, _ in doc])
+            res = C.Some([(col, U.bbox_rows(pub[col])) for col, _ in doc])
+        except Exception:
+            res = None
         cases.append([(col, U.json_cols_term(cols)) for col, cols in doc])
         ress.append(res)
         metas.append({'stream': 'synth', 'style': style, 'doc': doc, 'impl': res})
         rep.evaluations += 1
         rep.count('synth:' + style)
-        if len(doc[0][1][0][1]) >= 11:
+        if n >= 11:
             rep.nontrivial(('synth', text))
     bad = C.coq_mismatches(IMPORTS, LOAD_FN, LOAD_CASE, LOAD_RES, cases, ress)
     for i in bad[:5]:
-        rep.violation('load-differs', '_load_partition_bounds differs from Model/MetaCodec.v load',
+        rep.violation('load-differs',
+                      'the partition bounds read_parquet_dask exposes for a metadata document differ from '
+                      'Model/MetaCodec.v load of that document',
                       {**metas[i], 'model': C.coq_eval(IMPORTS, f'{LOAD_FN} {C.coq(cases[i])}')})
 
 
@@ -643,19 +716,12 @@ def run(rep):
         rep.violation(sig, ('_partition_bounds / kept partitions of read_parquet_dask differ from the model '
                             '(load of the stored JSON, concatenation, bounds= filter)'),
                       {**m, 'model': C.coq_eval(IMPORTS, f'({RB_FN}) {C.coq(rb[0][i])}')})
-    bad = C.coq_mismatches(IMPORTS, DUMP_FN, DUMP_CASE, DUMP_RES, dm[0], dm[1], shard=60)
-    for i in bad[:1]:
-        m = dm[2][i]
-        rep.violation(f'stored-json-differs:{m["specs"][0]["writer"]}',
-                      'the JSON stored in _common_metadata is not the dump of the true extents of the part files',
-                      {**m, 'stored': dm[1][i]})
+    stored_json_check(rep, dm)
+    # optional extra on an internal (write_info): counted only
     bad = C.coq_mismatches(IMPORTS, PK_FN, PK_CASE, PK_RES, pk[0], pk[1], shard=40)
-    for i in bad[:1]:
-        rep.violation('pack-layout-differs',
-                      'files / recorded bounds of pack_partitions_to_parquet differ from Model/MetaCodec.v pack_layout '
-                      'applied to the observed write_info',
-                      {**pk[2][i], 'found': pk[1][i],
-                       'model': C.coq_eval(IMPORTS, f'({PK_FN}) {C.coq(pk[0][i])}')})
+    if bad:
+        rep.count('internal-differs:pack-layout', len(bad))
+    rep.extra['internal_pack_layout_differ_from_model'] = len(bad)
     rep.extra['pack_layout_cases'] = len(pk[0])
     rep.extra['reads'] = cost[0]
     rep.extra['datasets'] = len(dm[0])
@@ -707,14 +773,7 @@ def replay(rep, rp):
             for i in bad:
                 print('model differs:', rb[2][i], C.coq_eval(IMPORTS, f'({RB_FN}) {C.coq(rb[0][i])}'))
                 rep.violation('model', 'differs', {})
-            bad = C.coq_mismatches(IMPORTS, DUMP_FN, DUMP_CASE, DUMP_RES, dm[0], dm[1])
-            for i in bad:
-                print('stored json differs:', dm[2][i], dm[1][i])
-                rep.violation('model', 'differs', {})
-            bad = C.coq_mismatches(IMPORTS, PK_FN, PK_CASE, PK_RES, pkr[0], pkr[1])
-            for i in bad:
-                print('pack layout differs:', pkr[2][i], pkr[1][i])
-                rep.violation('model', 'differs', {})
+            stored_json_check(rep, dm)
     for v in rep.violations:
         print('still:', v['signature'], v['what'])
     return not rep.violations
